@@ -473,6 +473,30 @@ pub fn gen_build(run: &mut Run, seed: u64, thorough: bool) {
                 }
             }
         }
+        // psk positions that do not fit the position's type (256 = 0 mod 256, 257 = 1, ...): never a valid modifier,
+        // whatever else is supplied
+        for suffix in ["psk256", "psk257", "psk258", "psk300", "psk512", "psk0999", "psk65535", "psk65536", "psk65537", "psk4294967296", "psk4294967297", "psk1+psk256", "psk256+psk1"] {
+            let name = format!("Noise_{p}{suffix}_25519_ChaChaPoly_SHA256");
+            let spec = BuildSpec { alias: None, mods: None,
+                name: name.clone(),
+                initiator: r.chance(1, 2),
+                resolver: "toy".into(),
+                s: Some(r.bytes(32)),
+                e: None,
+                rs: Some(r.bytes(32)),
+                psks: (0..3u8).map(|n| (n, r.bytes(32))).collect(),
+                prologue: None,
+                rng: r.bytes(32),
+            };
+            let o = sc.ex.build(sid, &spec);
+            sc.check_panic(&o, "build with a psk position past 255");
+            sc.count("build.psk_pos_wide");
+            if o.is_ok() {
+                sc.viol("C12", format!("{name} built: the psk position is not a position"));
+                sc.ex.drop_session(sid);
+            }
+            sid += 1;
+        }
         // key lengths (C10 / C12): every length class for s, e, rs; on a pattern that needs all keys (KK)
         // and on this pattern, where the key may be supplied although the role does not need it
         for (dh, kpat) in [("25519", "KK"), ("P256", "KK"), ("448", "KK"), ("25519", *p), ("P256", *p)] {
